@@ -172,9 +172,21 @@ def rule_r3(ctx) -> List[R.Inst]:
     return out
 
 
+def rule_r4(ctx) -> List[R.Inst]:
+    """written files under row permutation: the BMS tempo-id scheme numbers the same list in the same order on both sides
+    (rule code of C05.R1)"""
+    from . import c05
+    out = []
+    for i in c05.rule_r1(ctx):
+        i.rule = "C15.R4"
+        out.append(i)
+    return out
+
+
 SPECS = [
     RuleSpec("C15.R1", rule_r1, 8, "A5", "positional pairing only between equally ordered sequences"),
     RuleSpec("C15.R2", rule_r2, 15, "A5", "order-dependent reductions only on sorted (or order-free) data"),
+    RuleSpec("C15.R4", rule_r4, 3, "A5", "id schemes enumerated on two sides run over one list in one order (BMS tempo ids)"),
     RuleSpec("C15.R3", rule_r3, 1, "A4", "converters copy columns by position, never by row label"),
 ]
 
